@@ -288,7 +288,7 @@ def run(prog, chk):
     ev_ = R.ev
     sites = []
     for f in [x for x in R.ev_methods() if x.body]:
-        for n in SX.walk(f.body, into_lambdas=False):
+        for n in SX.walk(f.body, into_lambdas=True):      # a site inside a local closure of the function counts
             if R.is_sim_call(n, (rs.short,)):
                 sites.append((f, n))
     chk.count('evaluator→simulator reset call sites', len(sites), 3)
@@ -303,7 +303,7 @@ def run(prog, chk):
     chk.ob('R04.4', exec_, rst[0].ln if rst else exec_.ln, handled, 'the reset statement is executed by the simulator\'s reset', key='stmt-calls-sim-reset')
     for role, fn in (('object destruction', 'destroyObject'), ('index reuse', 'allocateTrackedQubit')):
         f = R.ev_method(fn)
-        has = any(R.is_sim_call(n, (rs.short,)) for n in SX.walk(f.body, into_lambdas=False))
+        has = any(R.is_sim_call(n, (rs.short,)) for n in SX.walk(f.body, into_lambdas=True))      # also inside a local closure of the function
         chk.ob('R04.4', f, f.ln, has, '%s resets the qubit through the simulator\'s reset' % role, key='path:' + fn)
     # no other simulator method zeroes amplitudes wholesale
     other = []
